@@ -126,6 +126,9 @@ func errStr(err error) string {
 	if err == nil {
 		return "ok"
 	}
+	if os.Getenv("VERIF_DEBUG") != "" {
+		fmt.Fprintln(os.Stderr, "DEBUG error:", err)
+	}
 	return "err"
 }
 
@@ -239,6 +242,20 @@ func (s *Sys) execRead(imm *iavl.ImmutableTree, toks []string) string {
 			return rBytes(imm.Hash())
 		}
 		return rBytes(s.tree.WorkingHash())
+	case "proof":
+		return s.execProof(imm, unhx(toks[1]))
+	case "touch": // read-only calls that are allowed to memoise but must not change any answer
+		it := imm
+		if it == nil {
+			it = s.tree.ImmutableTree
+		}
+		k := unhx(toks[1])
+		_, _ = it.GetMembershipProof(k)
+		_, _ = it.GetNonMembershipProof(k)
+		_, _ = it.GetProof(k)
+		_ = it.Hash()
+		_, _, _ = it.GetWithIndex(k)
+		return "ok"
 	}
 	return "badread"
 }
@@ -277,6 +294,19 @@ func (s *Sys) Exec(toks []string) string {
 				s.fastNow = toks[1] == "fast=true"
 			}
 			return errStr(s.open())
+		case "reopenat":
+			if len(toks) > 2 {
+				s.fastNow = toks[2] == "fast=true"
+			}
+			if s.tree != nil {
+				_ = s.tree.Close()
+			}
+			s.tree = iavl.NewMutableTree(s.store(), s.cfg.Cache, !s.fastNow, iavl.NewNopLogger(), s.options()...)
+			v, err := s.tree.LoadVersion(atoi(toks[1]))
+			if err != nil {
+				return "err"
+			}
+			return rInt(v)
 		case "load":
 			v, err := t.LoadVersion(atoi(toks[1]))
 			if err != nil {
@@ -323,6 +353,11 @@ func (s *Sys) Exec(toks []string) string {
 			return rInt(t.WorkingVersion())
 		case "hash":
 			return rBytes(t.Hash())
+		case "audit":
+			if toks[1] == "nodes" {
+				return s.auditNodes()
+			}
+			return s.auditFast()
 		}
 		return "badop"
 	})
